@@ -111,3 +111,13 @@ Definition gauss_tags_real (classes : nat) (d : list example) : option (list (Z 
   | _ => None
   end.
 End RealClassifiers.
+
+(* basic_reg_lambda_f<team<T>>::eval (lambda_f.tcc): the output of a TEAM is the
+   running mean of the members' defined outputs, undefined when no member has a
+   value (C08's model [team_eval]).  The evaluator theorems are over an output
+   oracle: for a team the oracle is this function of the members' outputs. *)
+Definition team_out (members : list pout) : pout :=
+  match team_eval (map to_out members) with
+  | Some v => PDouble v
+  | None => PVoid
+  end.
